@@ -285,7 +285,7 @@ def join(tokens, spaced=False):
 
 
 # ---------------------------------------------------------------------------------------------
-# NumLex mirror: spelling -> (kind, value, base, suffix) or None when the text is not a complete literal
+# NumLex mirror: spelling -> (kind, value, base, suffix, prefix) or None when the text is not a complete literal
 
 VALID_SUF = {"u", "U", "l", "L", "ll", "LL", "ul", "uL", "Ul", "UL", "lu", "lU", "Lu", "LU",
              "ull", "uLL", "Ull", "ULL", "llu", "llU", "LLu", "LLU"}
@@ -301,6 +301,9 @@ def _dig(c, base):
 def lex_literal(text):
     if not text:
         return None
+    for pfx in ("u8", "L", "u", "U"):
+        if text.startswith(pfx + "'"):
+            return _lex_char(text[len(pfx):], pfx)
     if text[0] == "'":
         return _lex_char(text)
     if text[0] not in "0123456789":
@@ -336,30 +339,35 @@ def lex_literal(text):
     suf = text[i:]
     if suf and suf not in VALID_SUF:
         return None
-    return ("int", val, base, suf)
+    return ("int", val, base, suf, "")
 
 
-def _lex_char(text):
+CHAR_MAX = {"": 127, "u8": 127, "u": 65535, "L": INT_MAX, "U": INT_MAX}
+
+
+def _lex_char(text, pfx=""):
+    """plain / u8: value 0..127; L, u, U: the code unit (never negative); \\x takes every hex digit"""
+    mx = CHAR_MAX[pfx]
     if len(text) < 3 or text[-1] != "'":
         return None
     body = text[1:-1]
     if body[0] != "\\":
         if len(body) != 1 or body == "'" or ord(body) > 127 or ord(body) < 32:
             return None
-        return ("chr", ord(body), 10, "")
+        return ("chr", ord(body), 10, "", pfx)
     e = body[1:]
     if not e:
         return None
     if e in SIMPLE_ESC:
-        return ("chr", SIMPLE_ESC[e], 10, "")
+        return ("chr", SIMPLE_ESC[e], 10, "", pfx)
     if e[0] == "x":
         if len(e) < 2 or any(_dig(c, 16) is None for c in e[1:]):
             return None
         v = int(e[1:], 16)
-        return ("chr", v, 16, "") if v <= 127 else None
+        return ("chr", v, 16, "", pfx) if v <= mx else None
     if 1 <= len(e) <= 3 and all(_dig(c, 8) is not None for c in e):
         v = int(e, 8)
-        return ("chr", v, 8, "") if v <= 127 else None
+        return ("chr", v, 8, "", pfx) if v <= mx else None
     return None
 
 
@@ -381,6 +389,18 @@ CHAR_SPELL = {0: ["'\\0'", "'\\000'", "'\\x0'"], 7: ["'\\a'", "'\\7'"], 8: ["'\\
               65: ["'A'", "'\\x41'", "'\\101'"], 97: ["'a'", "'\\141'", "'\\x61'"], 48: ["'0'", "'\\60'"],
               1: ["'\\1'", "'\\x01'"], 2: ["'\\2'"], 3: ["'\\003'"], 63: ["'?'", "'\\?'"], 34: ["'\"'", "'\\\"'"],
               32: ["' '", "'\\x20'", "'\\40'"], 127: ["'\\177'", "'\\x7f'"], 9: ["'\\t'", "'\\11'"]}
+
+
+def char_spellings(v):
+    """character-literal spellings of v: the plain ones plus, for 0 <= v <= 0xFFFF, prefixed ones"""
+    out = list(CHAR_SPELL.get(v, []))
+    if 0 <= v <= 0xFFFF:
+        out += ["L'\\x%x'" % v, "u'\\x%X'" % v]
+        if v <= 0o777:
+            out += ["L'\\%o'" % v, "u'\\%03o'" % v if v <= 0o777 else None]
+        if 32 < v < 127 and chr(v) not in "'\\":
+            out += ["L'%s'" % chr(v), "u'%s'" % chr(v), "u8'%s'" % chr(v)]
+    return [x for x in out if x]
 
 
 def int_spellings(v, unsigned=False):
@@ -414,11 +434,15 @@ def int_spellings(v, unsigned=False):
     return res
 
 
-def spell_value(v, k, refs=None):
+def spell_value(v, k, refs=None, pp=False):
     """k-th spelling (cyclic) of the integer v as a primary / unary expression: numeric literal in some
-    base, character literal where one exists, or a reference from `refs` (value -> list of names)."""
+    base, character literal where one exists, or a reference from `refs` (value -> list of names).
+    pp: the spelling is for a #if expression."""
     a = abs(v)
-    cand = int_spellings(a) + CHAR_SPELL.get(a, [])
+    cand = int_spellings(a) + (char_spellings(a) if a in CHAR_SPELL or a in (255, 256) else [])
+    if pp:
+        # in #if a char16_t / char32_t / char8_t literal is an UNSIGNED operand (uintmax_t arithmetic)
+        cand = [s for s in cand if not s.startswith(("u'", "U'", "u8'"))]
     cand = [("-" + s if v < 0 else s) for s in cand]
     if refs and v in refs:
         cand = cand + list(refs[v])
@@ -430,15 +454,32 @@ def spell_value(v, k, refs=None):
     return cand[k % len(cand)]
 
 
+def unsigned_spellings(v):
+    """spellings of 0 <= v <= INT_MAX of type unsigned int (u / U suffix)"""
+    seen, out = set(), []
+    for x in int_spellings(v):
+        b = x.rstrip("lL")
+        for sfx in ("u", "U"):
+            if b + sfx not in seen:
+                seen.add(b + sfx)
+                out.append(b + sfx)
+    return out
+
+
 def respell(t, pick):
-    """Replace every ["lit", v] leaf by ["sp", text, v] with text = pick(v, leaf_index)."""
+    """Replace every ["lit", v] leaf by ["sp", text, v] with text = pick(v, leaf_index), every
+    ["ulit", v] leaf by ["sp", unsigned spelling, v, True]; ["big", text] leaves stay."""
     n = [0]
 
     def go(x):
         if x[0] == "lit":
             n[0] += 1
             return ["sp", pick(x[1], n[0]), x[1]]
-        if x[0] == "sp":
+        if x[0] == "ulit":
+            n[0] += 1
+            us = unsigned_spellings(x[1])
+            return ["sp", us[(n[0] * 5 + x[1]) % len(us)], x[1], True]
+        if x[0] in ("sp", "big"):
             return x
         return [x[0]] + [go(c) if isinstance(c, list) else c for c in x[1:]]
     return go(t)
